@@ -75,6 +75,16 @@ func simC06Monitor(c *Ctx) {
 			observeMembers(c, v, "op:"+d.name, 0)
 		}
 	}
+	// ---- what existed before is still what it was built as (a value whose type was rewritten under it no longer
+	// matches its own payload), and so is everything the operations returned
+	for i, v := range w.vals {
+		observe(c, v, fmt.Sprintf("pool value re-read after the operations (%d)", i))
+	}
+	for _, v := range t.results {
+		if v != cty.NilVal {
+			observe(c, v, "operation result re-read after later operations")
+		}
+	}
 	// ---- constructors on awkward arguments
 	pick := func() cty.Value { return w.vals[c.G(len(w.vals))] }
 	sameType := func(v cty.Value) cty.Value {
